@@ -529,17 +529,29 @@ impl UdpProxy {
     }
 
     pub fn give_back_listeners(&mut self) -> Vec<(SocketAddr, UdpSocket)> {
-        self.listeners
-            .values()
-            .filter_map(|listener| {
-                let mut owned = listener.borrow_mut();
-                if let Some(socket) = owned.socket.take() {
-                    owned.active = false;
-                    return Some((owned.address, socket));
-                }
-                None
-            })
-            .collect()
+        let mut given_back = Vec::new();
+        let mut tokens = Vec::new();
+        for listener in self.listeners.values() {
+            let mut owned = listener.borrow_mut();
+            if let Some(socket) = owned.socket.take() {
+                owned.active = false;
+                tokens.push(owned.token);
+                given_back.push((owned.address, socket));
+            }
+        }
+        // Same as `give_back_listener`: a listener that hands its socket over
+        // is out of service. Tear its flows down THROUGH the manager now, while
+        // the session that owns their upstream sockets and slab slots is still
+        // known: a later ActivateListener builds a fresh session, and flows
+        // left behind by the old one would keep their slab slots forever (a
+        // soft stop would then never reach `base_sessions_count`).
+        let now = Instant::now();
+        for token in tokens {
+            if let Some(session) = self.listener_sessions.remove(&token) {
+                session.borrow_mut().close_all_flows(now);
+            }
+        }
+        given_back
     }
 
     pub fn give_back_listener(
